@@ -319,6 +319,7 @@ def check(F, H1, role='both'):
             continue
         H1.fn(name)
         check_parser(b, C, H1)
+    check_ecu_source(F, H1)
     return {'bits': hc, 'size_reader': size_r, 'size_writer': size_w}
 
 
@@ -607,3 +608,67 @@ def reader_tables(F, sz, ts, bits):
     except Unknown:
         return None
     return sizes, offs
+
+
+# ---------------------------------------------------------------------------------------------
+# the message ECU: standard-header id whenever present
+
+def check_ecu_source(F, H1):
+    """DltMessage::from_headers takes the ECU id from the standard header whenever the WEID flag provides one and falls back to
+    the storage header only when there is none - whatever the id bytes are.  Accepted forms: `std.ecu(buf).unwrap_or(storage.ecu)`
+    (and unwrap_or_else / map_or), or a match in which the storage-header value is used only on the None edge."""
+    import guards
+    b = F.get('adlt::dlt::DltMessage::from_headers')
+    if b is None:
+        H1.violation(('anchor-lost', 'from_headers'), 'DltMessage::from_headers not found')
+        return
+    H1.fn(b.path)
+    cfg = CFG(b)
+    E = ExprBuilder(cfg, fold_named=True)
+    E0 = ExprBuilder(cfg)
+    H1.sites += 1
+    ops = []
+    for blk in b.blocks:
+        if blk.cleanup:
+            continue
+        for s in blk.stmts:
+            if s.k == 'assign' and s.rv['k'] == 'agg' and s.rv.get('adt', '').endswith('dlt::DltMessage') and 'ecu' in (s.rv.get('fields') or []):
+                ops.append((blk, s, Operand(s.rv['ops'][s.rv['fields'].index('ecu')])))
+    if not ops:
+        H1.violation(('anchor-lost', 'DltMessage aggregate in from_headers'), 'cannot find the construction of the message in from_headers')
+        return
+    for (blk, s, o) in ops:
+        e = E.operand(o)
+        se = show(e)
+        if re.match(r'Option::(unwrap_or|unwrap_or_else|map_or)\(DltStandardHeader::ecu\(', se) and 'storage_header' in se:
+            H1.ok(sample={'message_ecu': 'standard_header.ecu(buf).unwrap_or(storage_header.ecu)'})
+            continue
+        # phi form
+        if o.place is None or not o.place.is_local:
+            H1.violation(('ecu-source', 'shape'), 'the ECU of the message is %s: cannot relate it to the standard/storage header ids' % se[:80], where=b.loc(s.sp))
+            continue
+        l = o.place.l
+        sd = cfg.single_def(l)
+        if sd is not None and sd[1] != 'call' and sd[2].rv['k'] == 'use' and Operand(sd[2].rv['o']).place is not None and Operand(sd[2].rv['o']).place.is_local:
+            l = Operand(sd[2].rv['o']).place.l
+        bad = None
+        n_some = 0
+        for (bi, si, d) in cfg.defs.get(l, []):
+            if si == 'call':
+                bad = 'result of %s' % d.callee.path
+                continue
+            val = show(E0.rvalue(d.rv))
+            known = guards.known(cfg, E, bi)
+            none_edge = any(show(c).startswith('discr(DltStandardHeader::ecu(') and t in (False, ('eq', 0)) for (c, t, D) in known)
+            some_edge = any(show(c).startswith('discr(DltStandardHeader::ecu(') and t in (True, ('eq', 1)) for (c, t, D) in known)
+            if 'storage_header' in val:
+                if not none_edge:
+                    bad = 'the storage-header id is used on an edge other than "standard header has no ECU id" (%s)' % b.loc(d.sp)
+            elif some_edge:
+                n_some += 1
+            else:
+                bad = 'value %s' % val[:60]
+        if bad is None and n_some >= 1:
+            H1.ok(sample={'message_ecu': 'standard-header id on the Some edge, storage-header id on the None edge only'})
+        else:
+            H1.violation(('ecu-source', 'fallback'), 'from_headers: %s - a message whose standard header carries an ECU id (WEID) must keep exactly that id' % (bad or 'the standard-header id is never used'), where=b.loc(s.sp))
